@@ -96,8 +96,14 @@ class World:
         keep: bool = False,
         fresh: bool = True,
         max_attempts: int = 10,
+        base_time: float | None = None,
     ) -> None:
         hooks.install()
+        # wall-clock moment the database at `path` was copied from a live world (its file mtime): delays of
+        # the queue rows it already contains are measured against it, not against "now", so the virtual-time
+        # classification of those rows does not depend on how long ago the copy was made (machine load)
+        self._base_time = base_time
+        self._pre_max_id = 0
         virtualize_backoff()
         self.events = events
         self.sdata = sdata
@@ -125,6 +131,11 @@ class World:
         self.withheld: dict[int, str] = {}  # row id -> lock held by a worker that never acked
         self._seen_deliver: dict[int, str] = {}
         self.side = hooks.raw_connect(path, isolation_level=None, check_same_thread=False, timeout=30)
+        if base_time is not None:
+            try:
+                self._pre_max_id = int(self.side.execute("SELECT COALESCE(MAX(id), 0) FROM queue_messages").fetchone()[0])
+            except Exception:
+                self._pre_max_id = 0
         self._side_lock = threading.RLock()
         self.commit_listeners: list = []
         self.store = self.queue = self.processor = self.orch = None
@@ -328,7 +339,19 @@ class World:
                     dt = datetime.fromisoformat(d["deliver_at"].replace(" ", "T"))
                     if dt.tzinfo is None:
                         dt = dt.replace(tzinfo=UTC)
-                    delay = (dt - now).total_seconds()
+                    ref_now = datetime.fromtimestamp(self._base_time, UTC) if (self._base_time is not None and rid <= self._pre_max_id) else now
+                    try:
+                        # the message's own creation time is a load-independent reference: for a freshly pushed
+                        # message deliver_at - created_at is exactly the requested delay (an old, re-pushed or
+                        # rescheduled message looks "more delayed", which only biases the virtual-time order)
+                        ca = datetime.fromisoformat(json.loads(d["payload"]).get("created_at"))
+                        if ca.tzinfo is None:
+                            ca = ca.replace(tzinfo=UTC)
+                        if ca < ref_now:
+                            ref_now = max(ca, ref_now - timedelta(seconds=5))
+                    except Exception:
+                        pass
+                    delay = (dt - ref_now).total_seconds()
                 except ValueError:
                     delay = 0.0
                 self._due[rid] = self.vnow + (delay if delay > 0.3 else 0.0)
